@@ -24,17 +24,21 @@ func replaceCaps() userCaps {
 func replaceLemma(idx int, p string) {
 	h := newH("")
 	c := replaceCaps()
-	h.setupUserState(maxSigs, c)
+	sigs := lemmaSigs(p)
+	if sigs == 1 {
+		c.att = 66
+	}
+	h.setupUserState(sigs, c)
 	h.assumeThresholdInvariant()
 	h.Env.BeginTx()
 	ok, panicked, m := h.callUser(idx, c)
 	ctx := h.Env.Ctx
-	verifrt.ProbeAttestation("m_message", "m_attestation", "att", m.Message, m.Attestation, h.Att, maxSigs)
+	verifrt.ProbeAttestation("m_message", "m_attestation", "att", m.Message, m.Attestation, h.Att, sigs)
 	isDeposit := idx == hReplaceDepositForBurn
 
 	r := refDecode(m.Message)
 	b := refDecodeBurn(m.Message)
-	attOK := refAttestationValid(m.Message, m.Attestation, h.Att, h.Threshold, maxSigs)
+	attOK := refAttestationValid(m.Message, m.Attestation, h.Att, h.Threshold, sigs)
 	evs := h.Env.Events()
 	ws := h.Env.Writes()
 	fromPadded := verifrt.Pad32(m.From.Bytes)
